@@ -289,6 +289,14 @@ static Verdict runHp(const Hp &h) {
       if (s == CARQUET_OK) PBT_CHECK(vd, mm || !truth, "page_might_match says 'no' for page %zu although it holds a value in [%s, %s] (type %d)", pi, pbt::hex(a).substr(0, 20).c_str(), pbt::hex(b).substr(0, 20).c_str(), type);
     }
   }
+  // point queries: every stored value must be reported as a possible match of the page that holds it
+  for (size_t pi = 0; pi < pages.size(); pi++)
+    for (size_t k = pages[pi].first; k < pages[pi].second; k++) {
+      const Bytes &v = h.vals[k]; Exact ev(v), ev2(v);
+      bool mm = false;
+      carquet_status_t s = carquet_column_index_page_might_match(cb, (int32_t)pi, ev.p, ev2.p, (int32_t)v.size(), &mm);
+      if (s == CARQUET_OK) PBT_CHECK(vd, mm, "page_might_match says 'no' for page %zu and the point query of a value stored in it (%zu bytes, type %d)", pi, v.size(), type);
+    }
   static const char *tn[] = {"bool", "int32", "int64", "int96", "float", "double", "byte_array", "fixed"};
   vd.label(std::string("helpers_") + tn[type]);
   return vd;
